@@ -299,10 +299,14 @@ def _mk_injected():
                     "@inject\n"
                     f"def f_sync(*, r: T = resource({name!r})):\n    return r\n"
                     "@inject\n"
-                    f"async def f_async(*, r: T = resource({name!r})):\n    return r\n",
+                    f"async def f_async(*, r: T = resource({name!r})):\n    return r\n"
+                    "@inject\n"
+                    f"def f_sync_opt(*, r: Optional[T] = resource({name!r})):\n    return r\n"
+                    "@inject\n"
+                    f"async def f_async_opt(*, r: Optional[T] = resource({name!r})):\n    return r\n",
                     ns,
                 )
-                return ns["f_sync"], ns["f_async"]
+                return ns["f_sync"], ns["f_async"], ns["f_sync_opt"], ns["f_async_opt"]
 
             fns[(t, name)] = mk()
     return fns
@@ -322,6 +326,10 @@ def do_lookup(api, t, name):
         return lambda ctx: INJECTED[(t, name)][0]()
     if api == "inject_async":
         return lambda ctx: INJECTED[(t, name)][1]()
+    if api == "inject_sync_opt":
+        return lambda ctx: INJECTED[(t, name)][2]()
+    if api == "inject_async_opt":
+        return lambda ctx: INJECTED[(t, name)][3]()
     if api == "shortcut_nowait":
         return lambda ctx: get_resource_nowait(t, name)
     if api == "shortcut_await":
@@ -329,7 +337,7 @@ def do_lookup(api, t, name):
     raise AssertionError(api)
 
 
-AGREE_APIS = ("nowait", "await", "inject_sync", "inject_async", "shortcut_nowait", "shortcut_await")
+AGREE_APIS = ("nowait", "await", "inject_sync", "inject_async", "shortcut_nowait", "shortcut_await", "inject_sync_opt", "inject_async_opt")
 
 
 # ------------------------------------------------------------------------------ engine
@@ -625,7 +633,8 @@ class Engine:
         box = await actor.call(do_lookup(op.api, t, op.name))
         new_calls = self.fac_calls[calls_before:]
         where = f"step {step} {op.text()}"
-        sync_api = op.api in ("nowait", "inject_sync", "shortcut_nowait")
+        sync_api = op.api in ("nowait", "inject_sync", "shortcut_nowait", "inject_sync_opt")
+        optional_api = op.api.endswith("_opt")
         if key in m.res:
             exp = m.res[key]
             if new_calls:
@@ -649,6 +658,9 @@ class Engine:
                     if isinstance(box.exc, ResourceNotFound):
                         diverge({"C02"}, f"lookup:factory-not-visible:{op.api}", where)
                     diverge({"C04"}, f"lookup:generation-raised:{type(box.exc).__name__}:{op.api}", f"{where}: {box.exc!r}")
+                if box.value is None and not new_calls:
+                    # the factory is visible on every other lookup path; this one reported "nothing there"
+                    diverge({"C02", "C19"}, f"lookup:factory-not-visible:{op.api}:returned-None", where)
                 if len(new_calls) != 1 or new_calls[0][0] != mf.fid:
                     if not new_calls and isinstance(box.value, Val):
                         diverge({"C04", "C02"}, f"lookup:factory-not-called:{op.api}:returned={box.value.label.split('#')[0]}",
@@ -672,7 +684,11 @@ class Engine:
                 c_ = self.model[c_].parent
             if new_calls:
                 diverge({"C02", "C04"} | cls_failed, f"lookup:foreign-factory-called:{op.api}", f"{where}: {new_calls}")
-            if not isinstance(box.exc, ResourceNotFound):
+            if optional_api:
+                if box.exc is not None or box.value is not None:
+                    diverge({"C02", "C19"} | cls_failed, f"lookup:invisible-key-resolved:{op.api}:{'value' if box.exc is None else type(box.exc).__name__}",
+                            f"{where}: got {box.value!r} / {box.exc!r}, expected None")
+            elif not isinstance(box.exc, ResourceNotFound):
                 cls = {"C02"} | cls_failed
                 diverge(cls, f"lookup:invisible-key-resolved:{op.api}:{'value' if box.exc is None else type(box.exc).__name__}",
                         f"{where}: got {box.value!r} / {box.exc!r}, expected ResourceNotFound")
